@@ -98,8 +98,8 @@ fn strings_upto(n: usize) -> Vec<String> {
     out
 }
 
-pub fn string_domain(rich: bool) -> Vec<String> {
-    let mut v = strings_upto(if rich { 3 } else { 2 });
+pub fn string_domain(len: usize) -> Vec<String> {
+    let mut v = strings_upto(len);
     v.extend(
         ["0", "-0", "+1", " 1", "1 ", "9223372036854775807", "9223372036854775808", "-9223372036854775808", "-9223372036854775809", "1_0", "١", "12a", "--1", "+", "-", "007"]
             .iter()
@@ -130,7 +130,7 @@ fn int_lit(t: IntegerType, v: i128) -> SemValue {
     SemValue::Literal(Literal::Integer(IntegerLiteral::new(v).with_type(t).expect("in range")))
 }
 
-fn atom_domain(a: Atom, rich: bool) -> Vec<SemValue> {
+fn atom_domain(a: Atom, strlen: usize) -> Vec<SemValue> {
     match a {
         | Atom::Integer(IntegerType::Int64) => int64_domain().into_iter().map(lit_i64).collect(),
         | Atom::Integer(t) => {
@@ -155,7 +155,7 @@ fn atom_domain(a: Atom, rich: bool) -> Vec<SemValue> {
         | Atom::Float(FloatType::Float32) => [0.0f32, -0.0, 1.5, f32::INFINITY, f32::NAN, f32::MAX].iter().map(|f| SemValue::Literal(Literal::Float(FloatLiteral::Float32(f.to_bits())))).collect(),
         | Atom::Float(FloatType::Float64) => [0.0f64, -0.0, 1.5, f64::INFINITY, f64::NAN, f64::MAX].iter().map(|f| SemValue::Literal(Literal::Float(FloatLiteral::Float64(f.to_bits())))).collect(),
         | Atom::Char => ['a', 'é', '€', '🙂', '\n', '\0', '\u{301}', ','].iter().map(|c| SemValue::Literal(Literal::Char(*c))).collect(),
-        | Atom::String => string_domain(rich).iter().map(|s| lit_str(s)).collect(),
+        | Atom::String => string_domain(strlen).iter().map(|s| lit_str(s)).collect(),
         | Atom::Bytes => bytes_domain().into_iter().map(|b| SemValue::Host(HostValue::Bytes(Rc::from(b)))).collect(),
         | Atom::Reader => vec![SemValue::Host(HostValue::Reader(ReaderHandle::STDIN))],
         | Atom::Writer => vec![SemValue::Host(HostValue::Writer(WriterHandle::STDOUT)), SemValue::Host(HostValue::Writer(WriterHandle::STDERR))],
@@ -340,10 +340,11 @@ fn reference(role: BuiltinValueRole, args: &[SemValue]) -> Want {
 pub struct Shapes {
     roles: Vec<BuiltinValueRole>,
     rich: bool,
+    scratch: Option<Scratch>,
 }
 impl Shapes {
     pub fn new(tier: Tier) -> Self {
-        Shapes { roles: BuiltinValueRole::all().collect(), rich: tier == Tier::Thorough }
+        Shapes { roles: BuiltinValueRole::all().collect(), rich: tier == Tier::Thorough, scratch: None }
     }
 }
 impl Check for Shapes {
@@ -361,7 +362,7 @@ impl Check for Shapes {
         format!("role {} at classifier {}: the full cross product of per-atom boundary domains, continuations = marker thunks", r.source_name(), BuiltinOperationAbi::for_role(r).into_classifier())
     }
     fn rule(&self) -> String {
-        "every host role driven through Computation::Prim on a live Runtime with the full cross product of per-atom boundary domains read off its declared classifier: strings = all strings of length <= 2 (thorough: 3) over {a, é, €, 🙂, U+0301, newline, comma} + numeric-text probes + a 300-scalar string; Int64 = {MIN, -1, 0..4, 299..301, 0x7F, surrogate and plane boundaries, 0x110000, MAX}; other integers and floats = boundaries; chars incl. NUL, combining mark, 4-byte scalar; bytes = all byte strings of length <= 2 over {00,61,C3,A9,FF} + truncated, overlong, surrogate and out-of-range encodings; reader/writer = the standard handles; continuations = marker thunks; generic oracle: the operation consumes exactly its declared arguments and either returns a value of the declared result atom or forces exactly one of the supplied continuations with arguments of that continuation's declared atoms — never unwinds (except the integer division trap); per-role oracle for the 16 text/bytes/char roles: a reference implementation over Vec<char>; non-trivial = every role".into()
+        "every host role driven through Computation::Prim on a live Runtime with the full cross product of per-atom boundary domains read off its declared classifier: strings = all strings of length <= 3 (two-string roles: 2; thorough: 4 and 3) over {a, é, €, 🙂, U+0301, newline, comma} + numeric-text probes + a 300-scalar string; Int64 = {MIN, -1, 0..4, 299..301, 0x7F, surrogate and plane boundaries, 0x110000, MAX}; other integers and floats = boundaries; chars incl. NUL, combining mark, 4-byte scalar; bytes = all byte strings of length <= 2 over {00,61,C3,A9,FF} + truncated, overlong, surrogate and out-of-range encodings; reader/writer = the standard handles; continuations = marker thunks; generic oracle: the operation consumes exactly its declared arguments and either returns a value of the declared result atom or forces exactly one of the supplied continuations with arguments of that continuation's declared atoms — never unwinds (except the integer division trap); per-role oracle for the 16 text/bytes/char roles: a reference implementation over Vec<char>; non-trivial = every role".into()
     }
     fn run(&mut self, i: usize) -> CaseResult {
         let role = self.roles[i];
@@ -373,7 +374,13 @@ impl Check for Shapes {
         for (pi, p) in sig.params.iter().enumerate() {
             match p {
                 | Param::Atom(a) => {
-                    let dom = atom_domain(*a, self.rich && sig.params.iter().filter(|q| matches!(q, Param::Atom(Atom::String))).count() < 2);
+                    let two = sig.params.iter().filter(|q| matches!(q, Param::Atom(Atom::String))).count() >= 2;
+                    let dom = atom_domain(*a, match (self.rich, two) {
+                        | (false, false) => 3,
+                        | (false, true) => 2,
+                        | (true, false) => 4,
+                        | (true, true) => 3,
+                    });
                     let mut next = Vec::with_capacity(lists.len() * dom.len());
                     for l in &lists {
                         for d in &dom {
@@ -394,6 +401,18 @@ impl Check for Shapes {
             }
         }
         let mut calls = 0u64;
+        // path arguments of the file-system roles are taken relative to a scratch directory
+        let is_fs = role.host_name().contains("fs_") || matches!(role, BuiltinValueRole::FsOpenReader | BuiltinValueRole::FsCreateWriter | BuiltinValueRole::FsAppendWriter);
+        if is_fs {
+            let scratch = self.scratch.get_or_insert_with(|| Scratch::new("c06shapes"));
+            scratch.clear();
+            let base = scratch.path("");
+            for l in lists.iter_mut() {
+                if let SemValue::Literal(Literal::String(p)) = &l[0] {
+                    l[0] = lit_str(&format!("{}/{}", base.display().to_string().trim_end_matches('/'), p.as_str()));
+                }
+            }
+        }
         for args in lists {
             calls += 1;
             let stdin = b"line one\n42\nrest";
@@ -512,7 +531,7 @@ pub struct IoMachine {
 impl IoMachine {
     pub fn new(tier: Tier) -> Self {
         let ops = io_alphabet();
-        let depth = if tier == Tier::Thorough { 4 } else { 3 };
+        let depth = if tier == Tier::Thorough { 5 } else { 4 };
         let mut prefixes: Vec<Vec<IoOp>> = vec![vec![]];
         let mut frontier: Vec<Vec<IoOp>> = vec![vec![]];
         for _ in 1..depth {
@@ -553,10 +572,10 @@ impl IoMachine {
             let eof_k = marker(2);
             let mut problem = None;
             'seq: for (step, op) in seq.iter().enumerate() {
-                transitions += 1;
                 let fail = |what: &str, detail: String| Some((what.to_string(), format!("step {} {:?}: {}", step + 1, op, detail)));
                 // expectations: Ok(args) on the success continuation, Err(kind) on the error continuation
                 let mut call = |role: BuiltinValueRole, args: Vec<SemValue>| -> Result<Shape, String> {
+                    transitions += 1;
                     let (shape, exact) = sess.call(role, args);
                     match shape {
                         | Err(p) => Err(format!("operation unwinds: {} at {}", p.msg, p.loc)),
